@@ -1,6 +1,7 @@
 package main
 
 import (
+	"go/types"
 	"fmt"
 	"go/token"
 	"strings"
@@ -19,6 +20,7 @@ func init() {
 			{"C12.publish-before-close", "results are stored before close(done); wait receives before loading", 2, c12Publish},
 			{"C12.leader-path", "leader: one upstream call, one markDone with its results, one delete, same results returned", 3, c12Leader},
 			{"C12.follower-path", "follower: wait() only, no upstream call", 3, c12Follower},
+			{"C12.wait-returns-result", "waiters receive exactly the published data and error", 1, c12WaitReturnsResult},
 			{"C12.map-lock", "queue.requests guarded by queue.mu; loadOrStore atomic; lock pairing", 6, c12MapLock},
 			{"C12.write-first", "reads consult the in-flight write queue first", 1, c12WriteFirst},
 		},
@@ -461,4 +463,40 @@ func publishSites(fn *ssa.Function) []publishSite {
 		out = append(out, ps)
 	})
 	return out
+}
+
+// c12WaitReturnsResult: a waiter gets exactly what the leader published - wait() (or whatever
+// receives from done and then hands the result on) returns the request's data and err fields as
+// they are, on every path.  A "normalised" nil data next to an error breaks the HasChunk waiter,
+// which converts the data without looking at the error first.
+func c12WaitReturnsResult(c *Ctx) {
+	n := 0
+	for _, fn := range c.libFuncsAll() {
+		if fn.Signature.Results().Len() != 2 {
+			continue
+		}
+		recv := false
+		for _, b := range fn.Blocks {
+			for _, ins := range b.Instrs {
+				if isRecvDone(ins) {
+					recv = true
+				}
+			}
+		}
+		// only the function that hands the raw result on (interface{}, error)
+		if !recv || !types.IsInterface(fn.Signature.Results().At(0).Type()) || !isErrorType(fn.Signature.Results().At(1).Type()) {
+			continue
+		}
+		n++
+		for _, r := range returnsOf(fn) {
+			okD := onlyOrigins(unspill(r, r.Results[0]), func(o string) bool { return o == "field:request.data" })
+			okE := onlyOrigins(unspill(r, r.Results[1]), func(o string) bool { return o == "field:request.err" })
+			c.verdict(okD && okE, fnKey(fn)+":returns-published-result", r.Pos(), "the published data and err are returned as they are",
+				fmt.Sprintf("the waiter's result is not the published one (data origins %v, err origins %v): waiters see something else than the leader returned", origins(r.Results[0]), origins(r.Results[1])))
+		}
+	}
+	if n == 0 {
+		c.info("request.wait", 0, "no function hands the raw (interface{}, error) result of a request on; waiters load the fields themselves (C12.publish-before-close)")
+		c.ok("request.wait", 0, "no raw-result wrapper")
+	}
 }
